@@ -85,7 +85,7 @@ T = {
          "and by exhaustive small-scope correspondence (all bounds around the length, huge bounds, views on a float grid, megabyte regions)",
          "trusted: Coq kernel; " + REALS + " (views only); " + CORR, "Rocq/Coq proof (algebraic law vs py_slice) + translation tie + exhaustive small-scope correspondence"),
  "C17": ("region", "proof", "concat/repeat/join/silence byte laws; division: min(n,len) contiguous pieces of near-equal size covering the data; parameter mismatch and ill-formed data rejected; eq <-> all four fields",
-         "Audio/Region.v; tied on every run by translation (groups algebra, silence: __add__, __mul__, __eq__, __len__, the parameter check and make_silence proved equal to Region.concat / repeat / region_eqb / len / make_silence for all regions: TieAlgebra.v, TieSilence.v) "
+         "Audio/Region.v; tied on every run by translation (groups algebra, silence, div: __add__, __mul__, __eq__, __len__, the parameter check, make_silence and __truediv__ (its loop reassembled from the translated test and turn as a fuelled fixpoint and proved equal by induction) = Region.concat / repeat / region_eqb / len / make_silence / div for all regions: TieAlgebra.v, TieSilence.v, TieDiv.v) "
          "and by random operation sequences (expression trees over a pool with mixed parameters), exhaustive division grids and multi-megabyte joins", "trusted: Coq kernel; " + REALS + " (make_silence only); " + CORR,
          "Rocq/Coq proof (algebraic laws, fuelled loop with fuel never exhausted) + translation tie + op-sequence correspondence"),
  "C18": ("wavio", "proof", "wav header codec round trip for widths 1/2/4; load(skip,max_read) = the samples [min(k1,N), +min(k2,rest)) with k = round(t*rate), including empty results (Load.v, for all audio and requests); numpy layout; partial: wave module and file system exercised, not verified",
